@@ -94,10 +94,20 @@ func checkSkip(c *pbt.Ctx, cs SkipCase) {
 			data[cs.Pos%len(enc)] = cs.Byte
 		}
 	}
+	// the value starts behind a few bytes that were read before (the cursor is not 0); BinaryProtocol.Skip ignores its
+	// useNative argument (it always takes the Go path), so the two implementations are called directly
+	pre := cs.Pos % 5
+	data = append(append(make([]byte, 0, len(data)+pre+24), []byte{0x0b, 0x00, 0x01, 0x08, 0x00}[:pre]...), data...)
 	run := func(native bool) (n int, err error, ok bool) {
-		p := thrift.BinaryProtocol{Buf: data}
-		ok = c.Protect("", func() { err = p.Skip(thrift.Type(cs.U.Root.K), native) })
-		return p.Read, err, ok
+		p := thrift.BinaryProtocol{Buf: data, Read: pre}
+		ok = c.Protect("", func() {
+			if native {
+				err = p.SkipNative(thrift.Type(cs.U.Root.K), thrift.MaxSkipDepth)
+			} else {
+				err = p.SkipGo(thrift.Type(cs.U.Root.K), thrift.MaxSkipDepth)
+			}
+		})
+		return p.Read - pre, err, ok
 	}
 	c.Step("Skip go")
 	n1, e1, ok1 := run(false)
@@ -106,13 +116,38 @@ func checkSkip(c *pbt.Ctx, cs SkipCase) {
 	if !ok1 || !ok2 {
 		return
 	}
-	if (e1 == nil) != (e2 == nil) {
-		c.Failf("skip-disagree", "SkipGo err=%v, SkipNative err=%v on %x", e1, e2, head(data))
-		return
+	// the statement quantifies over Thrift values: agreement is demanded where the bytes hold a well-formed value (the
+	// original) and for truncations of one (both must fail);
+	// for other byte soup each implementation only has to stay inside the input
+	wellFormed := cs.Mutate == 0
+	if cs.Mutate == 2 {
+		wellFormed = bytes.Equal(data[pre:pre+len(enc)], enc) // the substituted byte was already there
 	}
-	if e1 == nil && n1 != n2 {
-		c.Failf("skip-disagree", "SkipGo consumed %d bytes, SkipNative %d, input %x", n1, n2, head(data))
-		return
+	for _, r := range []struct {
+		n   int
+		err error
+		w   string
+	}{{n1, e1, "SkipGo"}, {n2, e2, "SkipNative"}} {
+		if r.err == nil && (r.n < 0 || r.n > len(data)-pre) {
+			c.Failf("skip-overread", "%s reports %d bytes consumed of an input of %d", r.w, r.n, len(data)-pre)
+			return
+		}
+	}
+	if cs.Mutate == 1 && limit < len(enc) {
+		if e1 == nil || e2 == nil {
+			c.Failf("skip-disagree", "value truncated at %d of %d: SkipGo err=%v, SkipNative err=%v on %x", limit, len(enc), e1, e2, head(data))
+			return
+		}
+	}
+	if wellFormed {
+		if (e1 == nil) != (e2 == nil) {
+			c.Failf("skip-disagree", "SkipGo err=%v, SkipNative err=%v on %x", e1, e2, head(data))
+			return
+		}
+		if e1 == nil && n1 != n2 {
+			c.Failf("skip-disagree", "SkipGo consumed %d bytes, SkipNative %d, input %x", n1, n2, head(data))
+			return
+		}
 	}
 	if cs.Mutate == 0 {
 		if e1 != nil || n1 != len(enc) {
@@ -131,7 +166,7 @@ func checkSkip(c *pbt.Ctx, cs SkipCase) {
 			}
 			c.Class("mutated-still-skippable")
 		} else {
-			c.Class("mutated-rejected-by-both")
+			c.Class("mutated-rejected")
 		}
 	}
 }
